@@ -669,12 +669,10 @@ impl<'a, 'b, R: FileManager> TypeModuleWalker<'a, R, AddressedQualifiedType>
                 anchor,
                 DiagnosticInfoMessage::CannotUseInterfaceInQualifiedTypePosition,
             ),
-            SymbolExport::ValueExpr { .. } => {
-                unreachable!("we use get_type which filters these out")
-            }
-            SymbolExport::ExprDecl { .. } => {
-                unreachable!("we use get_type which filters these out")
-            }
+            // reachable through a default export of a value (`export { x as default }`)
+            SymbolExport::ValueExpr { .. } | SymbolExport::ExprDecl { .. } => self
+                .ctx
+                .error(anchor, DiagnosticInfoMessage::CannotUseValueInTypePosition),
         }
     }
 
